@@ -121,6 +121,13 @@ func parseSCPSSH(raw string, kind Kind) (*URL, error) {
 		return nil, errors.New("no hostname present")
 	}
 
+	// Disallow usernames and hostnames that start with a dash, because they
+	// form the target argument of ssh and scp commands, where they would be
+	// parsed as options.
+	if hostname[0] == '-' || (username != "" && username[0] == '-') {
+		return nil, errors.New("username or hostname starts with '-'")
+	}
+
 	// Parse off the port. This is not a standard SCP URL syntax (and even Git
 	// makes you use full SSH URLs if you want to specify a port), so we invent
 	// our own rules here, but essentially we just scan until the next colon,
